@@ -1,4 +1,5 @@
 """C05 — results are basis-covariant and every Hermitian coupling operator is accepted."""
+import os
 import numpy as np
 import oqupy
 
@@ -130,6 +131,24 @@ def run(chk):
             ev = rng.sample([-1.0, 0.0, 0.5, 1.0], d)
             O = np.diag(ev).astype(complex)
             V = np.array([[np.exp(2j * np.pi * j_ * k_ / d) for k_ in range(d)] for j_ in range(d)]) / np.sqrt(d)
+        if it in (5, 6):
+            # every run (PT-TEMPO, then TEMPO or mean-field): a coupling operator that is ALMOST diagonal -- its eigenbasis is tilted
+            # away from the given basis by a few 1e-3 rad (off-diagonal elements far above rounding, diagonal of the eigenvector
+            # matrix equal to one within 1e-5) -- against the same problem in a Haar-rotated basis; tight tolerance
+            from scipy.linalg import expm as _expm
+            method, storage = ("pttempo", rng.choice(["memory", "file-backed"])) if it == 5 else (rng.choice(["tempo", "meanfield"]), "memory")
+            ev = rng.sample([-0.5, 0.5, 1.0], d)
+            if it == 5:
+                ev = sorted(ev)             # (the eigenvector matrix a solver returns in ascending order is then close to the identity)
+            g_ = np.array([[rng.gauss(0, 1) + 1j * rng.gauss(0, 1) for _ in range(d)] for _ in range(d)])
+            g_ = (g_ + g_.conj().T) / 2
+            g_ = g_ - np.diag(np.diag(g_))
+            W = _expm(1j * rng.choice([1.5e-3, 3e-3]) * g_ / np.linalg.norm(g_, 2))
+            O = W @ np.diag(ev) @ W.conj().T
+            O = (O + O.conj().T) / 2
+            V = haar(rng, d)
+            eps = 1e-9
+            par = oqupy.TempoParameters(dt=0.1, epsrel=eps, dkmax=dkmax)
         info = {"kind": "covariance", "method": method, "d": d, "eigenvalues": ev, "dkmax": dkmax, "unique": unique, "process_tensor": storage}
 
         def solve(Hh, Oo, rr):
@@ -170,7 +189,7 @@ def run(chk):
         chk.search_cases += 1
         chk.count("cov_" + method)
         chk.case(info, ("cov", method, d, tuple(ev), dkmax, unique))
-        if np.abs(back - base).max() > 2e3 * eps:
+        if np.abs(back - base).max() > (2e3 if it not in (5, 6) else 2e2) * eps:
             chk.fail("not-covariant", f"{method}: simulating in a rotated basis and rotating back differs by {np.abs(back - base).max():.2e}", info)
 
     # ---- (d) mean-field TEMPO with several species, EACH rotated by its own unitary ---------------------------------
